@@ -13,22 +13,28 @@ build() {
   cp /repo/go.sum go.sum 2>/dev/null
   go build -o "$BIN/ionsim" ./cmd/ionsim || { echo "BUILD FAILED (exit 2)"; exit 2; }
 }
+build_race() {
+  cp /repo/go.sum go.sum 2>/dev/null
+  go build -race -o "$BIN/ionsim-race" ./cmd/ionsim || { echo "RACE BUILD FAILED (exit 2)"; exit 2; }
+}
 case "${1:-}" in
   build)
     build
+    build_race
     ;;
   build-race)
-    cp /repo/go.sum go.sum 2>/dev/null
-    go build -race -o "$BIN/ionsim-race" ./cmd/ionsim || { echo "BUILD FAILED (exit 2)"; exit 2; }
+    build_race
     ;;
   check)
     build
     shift
+    [ "${1:-}" = "C18" ] && build_race
     tier="${2:-${VERIF_TIER:-quick}}"
     exec "$BIN/ionsim" check "$1" "$tier"
     ;;
   replay)
     build
+    grep -q '"free": *true' "$2" 2>/dev/null && build_race
     exec "$BIN/ionsim" replay "$2"
     ;;
   *)
